@@ -26,6 +26,19 @@ class InjectedFault(Exception):
     """Raised by the simulator inside a collaborator callback."""
 
 
+class InjectedBaseFault(BaseException):
+    """Like InjectedFault but not an Exception subclass (what a KeyboardInterrupt-like
+    asynchronous exception delivered inside a callback looks like to the library)."""
+
+
+def _make_exc(name, msg):
+    return {
+        "InjectedFault": InjectedFault, "KeyError": KeyError, "FloatingPointError": FloatingPointError,
+        "StopIteration": StopIteration, "ValueError": ValueError, "RuntimeError": RuntimeError,
+        "MemoryError": MemoryError, "InjectedBaseFault": InjectedBaseFault,
+    }.get(name or "InjectedFault", InjectedFault)(msg)
+
+
 class HarnessError(Exception):
     """The simulator itself misbehaved (never reported as pass or violation)."""
 
@@ -195,7 +208,7 @@ class Callbacks:
         f = self.fault
         if f.get("kind") == "position_raises" and i == f["at_call"]:
             self._fire()
-            raise InjectedFault("position_raises")
+            raise _make_exc(f.get("exc"), "position_raises")
         tr = self.tr
         x = self.path.base(tr.k * t)
         if tr.has_Q:
@@ -212,7 +225,7 @@ class Callbacks:
         kind = f.get("kind")
         if kind == "L_raises" and i == f["at_call"]:
             self._fire()
-            raise InjectedFault("L_raises")
+            raise _make_exc(f.get("exc"), "L_raises")
         tr = self.tr
         if tr.has_Q:
             Lb = self.flow.base(tr.k * t, tr.QT @ np.asarray(x, dtype=float))
@@ -246,7 +259,7 @@ class Callbacks:
         kind = f.get("kind")
         if kind == "regime_raises" and i == f["at_call"]:
             self._fire()
-            raise InjectedFault("regime_raises")
+            raise _make_exc(f.get("exc"), "regime_raises")
         if kind == "regime_unsupported" and i >= f["at_call"]:
             self._fire()
             return f["value"]
@@ -348,6 +361,12 @@ class World:
             if self.tr.has_Q:
                 A = A @ self.tr.QT
             f = E.make_fractions(ms["volumes"], n)
+            if ms.get("share_init_with") is not None and ms["share_init_with"] < len(self.minerals):
+                # built from the very same array objects as another mineral (a driver creating
+                # several minerals from one initial texture)
+                src = self.minerals[ms["share_init_with"]].obj
+                if src.orientations[0].shape == A.shape:
+                    A, f = src.orientations[0], src.fractions[0]
             pert = self.spec.get("perturb")
             if pert:
                 # conditioning probe: a deterministic perturbation of relative size eps
@@ -365,7 +384,7 @@ class World:
                 regime=regime,
                 n_grains=n,
                 fractions_init=f,
-                orientations_init=np.ascontiguousarray(A),
+                orientations_init=A if ms.get("share_init_with") is not None else np.ascontiguousarray(A),
             )
         F0 = np.array(ms.get("F0", np.eye(3)), dtype=float)
         if self.tr.has_Q:
@@ -578,10 +597,10 @@ class World:
                                       self.solver_kwargs())
             rec["status"] = "ok"
             rec["exc"] = None
-        except InjectedFault as e:
+        except (InjectedFault, InjectedBaseFault) as e:
             F_out = None
             rec["status"] = "raised"
-            rec["exc"] = "InjectedFault"
+            rec["exc"] = type(e).__name__
             rec["msg"] = str(e)
         except Exception as e:  # noqa: BLE001
             F_out = None
@@ -685,7 +704,7 @@ class World:
             )
             rec["status"] = "ok"
             rec["exc"] = None
-        except Exception as e:  # noqa: BLE001
+        except (Exception, InjectedBaseFault) as e:  # noqa: BLE001
             F_out = None
             rec["status"] = "raised"
             rec["exc"] = type(e).__name__
